@@ -1702,6 +1702,13 @@ class Machine:
                 return mk_bool(compare(op, 0, 0))
             if la[0] == "D" and lb[0] == "D" and la[1] == lb[1]:
                 return mk_bool(self.decide_sym_cmp(st, op, la[2], lb[2]))
+            if la[0] == "A" and lb[0] == "A" and la[1] == lb[1]:
+                # two positions inside one constant allocation
+                return mk_bool(compare(op, la[2], lb[2]))
+            if la[0] in ("L", "H", "S", "K") and la[0] == lb[0] and la[:-1] == lb[:-1] and la[-1] and lb[-1] \
+                    and la[-1][:-1] == lb[-1][:-1] and isinstance(la[-1][-1], int) and isinstance(lb[-1][-1], int):
+                # two elements of one local / caller-owned sequence
+                return mk_bool(compare(op, la[-1][-1], lb[-1][-1]))
             if op in ("Eq", "Ne") and la[0] != lb[0]:
                 return mk_bool(op == "Ne")
             raise Unanalysable("comparison of unrelated pointers")
